@@ -193,6 +193,79 @@ def r_dictcomp(prog, tier):
     return obs, {}
 
 
+def r_staleacc(prog, tier):
+    """Inside a loop a location is rebuilt from a copy of itself that was taken before the loop and never refreshed:
+    every iteration starts again from the original value, so only the last step survives."""
+    obs = []
+    n = 0
+    from ..core import _unique_assign, path
+    for mod in MODULES:
+        for f in sorted(prog.modules[mod].funcs.values(), key=lambda x: x.fq):
+            cfg = f.cfg
+            for m in cfg.eval_nodes():
+                if m.kind != 'stmt' or not isinstance(m.ast, ast.Assign) or not m.loops or len(m.ast.targets) != 1:
+                    continue
+                P = path(m.ast.targets[0])
+                if P is None or not isinstance(m.ast.targets[0], (ast.Subscript, ast.Attribute)):
+                    continue
+                for x in ast.walk(m.ast.value):
+                    if isinstance(x, ast.Name) and x.id in f.locals:
+                        defs = name_defs(f, x.id)
+                        if len(defs) != 1 or not isinstance(defs[0][1], ast.AST):
+                            continue
+                        dn, dv = defs[0]
+                        if path(dv) == P and m.loops[0] not in cfg.nodes[dn].loops and cfg.dominates(dn, m.id) \
+                                and not cfg.nodes[dn].loops:
+                            # the location itself must not be read in the new value (then it would be up to date)
+                            if any(path(y) == P for y in ast.walk(m.ast.value) if isinstance(y, (ast.Subscript, ast.Attribute))):
+                                continue
+                            n += 1
+                            obs.append(Ob('R-STALEACC', f.fq, 'the value built up in `%s` starts from its current content' % P, False,
+                                          '`%s = %s` was read once before the loop (line %d); every iteration rebuilds `%s` from '
+                                          'that original value, so earlier iterations are overwritten' % (
+                                              x.id, unparse(dv), cfg.nodes[dn].lineno, P),
+                                          construct='staleacc:%s:%s' % (P, x.id), line=m.lineno))
+    obs.append(Ob('R-STALEACC', 'package', 'scan for accumulations restarted from a stale copy covered every function', True,
+                  '%d found' % n, construct='staleacc-scan', nontrivial=False))
+    return obs, {}
+
+
+def r_zerotable(prog, tier):
+    """A table created with a zero for every key (a counter table) is assigned a count inside a loop instead of being
+    added to: when a key comes up twice only the last count survives."""
+    obs = []
+    n = 0
+    for mod in MODULES:
+        for f in sorted(prog.modules[mod].funcs.values(), key=lambda x: x.fq):
+            cfg = f.cfg
+            zero = set()
+            for nm in f.locals:
+                defs = [v for (_, v) in name_defs(f, nm)]
+                if len(defs) == 1 and isinstance(defs[0], ast.AST):
+                    v = defs[0]
+                    if isinstance(v, ast.DictComp) and isinstance(v.value, ast.Constant) and v.value.value == 0:
+                        zero.add(nm)
+                    elif isinstance(v, ast.Call) and unparse(v.func) in ('dict.fromkeys',) and len(v.args) == 2 \
+                            and isinstance(v.args[1], ast.Constant) and v.args[1].value == 0:
+                        zero.add(nm)
+            for m in cfg.eval_nodes():
+                if m.kind == 'stmt' and isinstance(m.ast, ast.Assign) and m.loops and len(m.ast.targets) == 1 \
+                        and isinstance(m.ast.targets[0], ast.Subscript) and isinstance(m.ast.targets[0].value, ast.Name) \
+                        and m.ast.targets[0].value.id in zero and not isinstance(m.ast.value, ast.Constant):
+                    t = unparse(m.ast.targets[0])
+                    if t in unparse(m.ast.value):
+                        continue            # T[k] = T[k] + v
+                    adds = any(x.kind == 'stmt' and isinstance(x.ast, ast.AugAssign) and unparse(x.ast.target) == t for x in cfg.eval_nodes())
+                    n += 1
+                    obs.append(Ob('R-ZEROTABLE', f.fq, 'counter table entry `%s` is added to' % t, False,
+                                  '`%s` starts at 0 for every key and is ASSIGNED `%s` inside a loop: when a key comes up again the '
+                                  'earlier count is lost' % (m.ast.targets[0].value.id, unparse(m.ast.value)[:40]),
+                                  construct='zerotable:' + unparse(m.ast)[:60], line=m.lineno))
+    obs.append(Ob('R-ZEROTABLE', 'package', 'scan for assigned (not accumulated) counter tables covered every function', True,
+                  '%d found' % n, construct='zerotable-scan', nontrivial=False))
+    return obs, {}
+
+
 # --------------------------------------------------------------------------- fixtures: the patterns must be found
 
 FIXTURE = {
@@ -211,6 +284,13 @@ def fx(tree, **params):
     if v is None:
         raise ValueError('x')
     d = {a: {b: 1} for a in tree.children for b in a.children}
+    lab = tree.data['label']
+    while len(tree.children) == 1:
+        tree.data['label'] = lab + '+' + tree.children[0].data['label']
+        tree = tree.children[0]
+    starts = {c: 0 for c in tree.children}
+    for c in tree.children:
+        starts[c] = len(c.children)
     return tree
 TRANSFORMATIONS = [fx]
 """,
@@ -241,3 +321,5 @@ r_substr = _with_fixture('R-SUBSTR', r_substr)
 r_deadcheck = _with_fixture('R-DEADCHECK', r_deadcheck)
 r_falsyzero = _with_fixture('R-FALSYZERO', r_falsyzero)
 r_dictcomp = _with_fixture('R-DICTCOMP', r_dictcomp)
+r_staleacc = _with_fixture('R-STALEACC', r_staleacc)
+r_zerotable = _with_fixture('R-ZEROTABLE', r_zerotable)
